@@ -143,6 +143,16 @@ theorem stored_dir {ctx : Ctx κ} {s : Store κ} {fuel : Nat} {c : Child} {t : N
     · cases h
   · cases h
 
+/-- a stored directory entry has its manifest recorded and in the cache -/
+theorem stored_dir_inCache {ctx : Ctx κ} {s : Store κ} {fuel : Nat} {c : Child} {t : Node κ}
+    (hc : c.isDir = true) (h : stored ctx s (fuel + 1) c = some t) :
+    hasSum c.sum = true ∧ s.has c.sum = true := by
+  simp only [stored, hc, if_true] at h
+  split at h
+  · rename_i hin
+    simpa using hin
+  · cases h
+
 theorem stored_file {ctx : Ctx κ} {s : Store κ} {fuel : Nat} {c : Child} {t : Node κ}
     (hc : c.isDir = false) (h : stored ctx s fuel c = some t) :
     hasSum c.sum = true ∧ ∃ o, s.get c.sum = some o ∧ t = .file (o.bytes ctx) := by
